@@ -42,6 +42,7 @@ Slice objects constructed directly from a plain bitarray (only Cell(...) is a do
 Cell objects returned by reads after a BoC round trip (content compared).
 """
 import hashlib
+import os
 
 from hypothesis import strategies as st
 from harness.core import Sub, Fail, call, exc_sig
@@ -66,6 +67,20 @@ ASSUMPTIONS = ['harness/ref/refbits.py (TL-B writer on str, self-tested at impor
                'depth of a cell = longest reference path (computed by the harness from the case, not read from the library)']
 
 MAXB, MAXR, MAXD = 1023, 4, 1023
+
+# Development aid: env VERIF_IGNORE_SIG='sig1,sig2' makes the listed signatures count as passed.  Signatures listed for
+# C07 in known_findings.json are read (never written): a program goes on past a listed store verdict failure so that an
+# unlisted failure behind it is still found; a case whose only failures are listed returns the first of them.
+IGNORE = frozenset(x.strip() for x in os.environ.get('VERIF_IGNORE_SIG', '').split(',') if x.strip())
+_KNOWN = None
+
+
+def _tolerated(sig):
+    global _KNOWN
+    if _KNOWN is None:          # configuration, read once per process
+        from harness.core import load_known
+        _KNOWN = frozenset(load_known('C07'))
+    return 'ignore' if sig in IGNORE else 'known' if sig in _KNOWN else None
 
 
 # --------------------------------------------------------------------------------------------------
@@ -208,6 +223,8 @@ def opclass(step):
         return k + (':anycast' if step.get('any') else '')
     if k == 'bits':
         return k + ':' + step.get('form', 'str')
+    if k == 'addr_ext':
+        return k + (':len0' if step['len'] == 0 else '')
     return k
 
 
@@ -396,6 +413,7 @@ def check_program(case):
     ctx, memo = {}, {}
     b = Builder()
     mbits, mrefs = '', []            # model: bit string, [(cell, depth)]
+    first_known = None
     for i, step in enumerate(case['steps']):
         cls = opclass(step)
         used, urefs = len(mbits), len(mrefs)
@@ -410,7 +428,12 @@ def check_program(case):
             return Fail(f'invariant/builder-holds-more-than-4-refs/{cls}', f'{where}: builder holds {len(grefs)} refs')
         if v['must'] == 'raise':
             if ok:
-                return Fail(f'store/{cls}/accepted/{v["why"]}', f'{where}: call returned, builder now {len(gbits)} bits/{len(grefs)} refs')
+                f = Fail(f'store/{cls}/accepted/{v["why"]}', f'{where}: call returned, builder now {len(gbits)} bits/{len(grefs)} refs')
+                t = _tolerated(f.signature)
+                if t is None:
+                    return f
+                if t == 'known' and first_known is None:
+                    first_known = f
             # no atomicity promised: re-synchronise the model from the builder
             mbits = gbits
             mrefs = [(c, _walk_depth(c, memo)) for c in grefs]
@@ -458,7 +481,7 @@ def check_program(case):
         ok, d = call(cell.get_depth)
         if ok and d > MAXD:
             return Fail('end_cell/cell-deeper-than-1023-produced', f'{where}: cell reports depth {d}')
-    return None
+    return first_known
 
 
 # --------------------------------------------------------------------------------------------------
@@ -1276,6 +1299,8 @@ def enum_reads(tier):
     for r in range(0, 1024):
         for ri, route in enumerate(ROUTES):
             salt += 1
+            if tier == 'quick' and (r + ri) % 2 and route not in PLAIN_ROUTES and r > 32:
+                continue                                   # quick: half of the routes per r (alternating), all for r <= 32
             shape = _SHAPES[(r + ri) % len(_SHAPES)]
             k = (r + ri) % 5
             post = POSTS[(r // 3 + ri) % len(POSTS)]
@@ -1376,7 +1401,7 @@ def strat_reads(tier):
 
 SUBCHECKS = [
     Sub('builder-programs', check_program, strategy=strat_programs, classify=classify_program, nontrivial=nontrivial_program,
-        n=(6000, 150000), shards=(16, 32),
+        n=(4000, 150000), shards=(16, 32),
         note='programs of store operations placed relative to the remaining capacity; model verdict per step, limits and '
              'end_cell() after every step'),
     Sub('range-grid', check_range, enum=enum_range, classify=classify_range, nontrivial=nontrivial_range, shards=(8, 8),
@@ -1387,7 +1412,7 @@ SUBCHECKS = [
         note='every remaining length r in 0..1023 x 10 routes x typed content (quick: 1-2 shapes, thorough: 7): every consuming read on a fresh '
              'slice, largest in-bounds request and smallest over-read'),
     Sub('read-bounds', check_reads, strategy=strat_reads, classify=classify_reads, nontrivial=nontrivial_reads,
-        n=(4000, 100000), shards=(16, 32),
+        n=(3000, 100000), shards=(16, 32),
         note='sequences of typed reads on one slice (typed payloads, last one cut short) followed by requests relative to '
              'what remains'),
 ]
